@@ -46,6 +46,9 @@ Proof.
   revert l. induction y; intros l; [reflexivity|]. destruct l; cbn; [apply skipn_nil|apply IHy].
 Qed.
 
+Lemma Ok_inj {A} (a b : A) : Ok a = Ok b -> a = b.
+Proof. congruence. Qed.
+
 Lemma lenZ_app {A} (a b : list A) : lenZ (a ++ b) = lenZ a + lenZ b.
 Proof. unfold lenZ. rewrite app_length. lia. Qed.
 
@@ -150,7 +153,7 @@ Qed.
 Lemma parse_plaintext_ok c : wf_cookie c -> parse_plaintext (plaintext c) = Ok c.
 Proof.
   destruct c as [alg s c]. unfold wf_cookie, plaintext, lenZ. cbn [c_alg c_s2c c_c2s].
-  intros [[-> [Hs Hc]] | [-> [Hs Hc]]].
+  intros (_ & _ & [[-> [Hs Hc]] | [-> [Hs Hc]]]).
   - change (be_enc 2 ALG_SIV_CMAC_256) with [0; 15]. cbn [app parse_plaintext].
     change (be_dec [0; 15] =? ALG_SIV_CMAC_256) with true. cbv iota.
     unfold lenZ. rewrite app_length.
@@ -167,19 +170,30 @@ Qed.
 Lemma parse_plaintext_inv p c : bytes_ok p -> parse_plaintext p = Ok c -> p = plaintext c /\ wf_cookie c.
 Proof.
   intros Hp. destruct p as [|b0 [|b1 kb]]; try discriminate. cbn [parse_plaintext].
+  assert (Hkb : bytes_ok kb).
+  { unfold bytes_ok in *. rewrite Forall_forall in *. intros x Hx. apply Hp. cbn. auto. }
   assert (Hb : be_enc 2 (be_dec [b0; b1]) = [b0; b1]).
-  { apply (be_enc_dec [b0; b1]). inversion Hp as [|? ? ? Hp']; inversion Hp'; subst. repeat constructor; assumption. }
+  { apply (be_enc_dec [b0; b1]). unfold bytes_ok in *. rewrite Forall_forall in *.
+    intros x [<-|[<-|[]]]; apply Hp; cbn; auto. }
   destruct (be_dec [b0; b1] =? ALG_SIV_CMAC_256) eqn:E1.
-  - destruct (lenZ kb =? 2 * KEY_WIDTH_256) eqn:E2; [|discriminate]. intros [= <-].
+  - destruct (lenZ kb =? 2 * KEY_WIDTH_256) eqn:E2; [|discriminate]. intros Hc.
+    assert (Hc' : c = {| c_alg := be_dec [b0; b1]; c_s2c := firstn (Z.to_nat KEY_WIDTH_256) kb;
+                         c_c2s := skipn (Z.to_nat KEY_WIDTH_256) kb |}) by congruence.
+    subst c. clear Hc.
     apply Z.eqb_eq in E1, E2. unfold plaintext, wf_cookie. cbn [c_alg c_s2c c_c2s]. split.
     + rewrite Hb, firstn_skipn. reflexivity.
-    + left. unfold lenZ in *. rewrite firstn_length, skipn_length. change (Z.to_nat KEY_WIDTH_256) with 32%nat.
+    + split; [apply bytes_ok_firstn, Hkb|]. split; [apply bytes_ok_skipn, Hkb|].
+      left. unfold lenZ in *. rewrite firstn_length, skipn_length. change (Z.to_nat KEY_WIDTH_256) with 32%nat.
       change KEY_WIDTH_256 with 32 in *. lia.
   - destruct (be_dec [b0; b1] =? ALG_SIV_CMAC_512) eqn:E3; [|discriminate].
-    destruct (lenZ kb =? 2 * KEY_WIDTH_512) eqn:E2; [|discriminate]. intros [= <-].
+    destruct (lenZ kb =? 2 * KEY_WIDTH_512) eqn:E2; [|discriminate]. intros Hc.
+    assert (Hc' : c = {| c_alg := be_dec [b0; b1]; c_s2c := firstn (Z.to_nat KEY_WIDTH_512) kb;
+                         c_c2s := skipn (Z.to_nat KEY_WIDTH_512) kb |}) by congruence.
+    subst c. clear Hc.
     apply Z.eqb_eq in E3, E2. unfold plaintext, wf_cookie. cbn [c_alg c_s2c c_c2s]. split.
     + rewrite Hb, firstn_skipn. reflexivity.
-    + right. unfold lenZ in *. rewrite firstn_length, skipn_length. change (Z.to_nat KEY_WIDTH_512) with 64%nat.
+    + split; [apply bytes_ok_firstn, Hkb|]. split; [apply bytes_ok_skipn, Hkb|].
+      right. unfold lenZ in *. rewrite firstn_length, skipn_length. change (Z.to_nat KEY_WIDTH_512) with 64%nat.
       change KEY_WIDTH_512 with 64 in *. lia.
 Qed.
 
@@ -191,8 +205,15 @@ Qed.
 
 Lemma plaintext_len c : wf_cookie c -> lenZ (plaintext c) = 66 \/ lenZ (plaintext c) = 130.
 Proof.
-  unfold wf_cookie, plaintext. rewrite !lenZ_app. unfold lenZ at 1 4. rewrite be_enc_length.
-  change KEY_WIDTH_256 with 32. change KEY_WIDTH_512 with 64. lia.
+  intros H. unfold plaintext. rewrite !lenZ_app.
+  assert (lenZ (be_enc 2 (c_alg c)) = 2) by (unfold lenZ; rewrite be_enc_length; reflexivity).
+  destruct H as (_ & _ & H). change KEY_WIDTH_256 with 32 in H. change KEY_WIDTH_512 with 64 in H. lia.
+Qed.
+
+Lemma plaintext_bytes_ok c : wf_cookie c -> bytes_ok (plaintext c).
+Proof.
+  intros (H1 & H2 & _). unfold plaintext. apply Forall_app. split; [apply be_enc_bytes_ok|].
+  apply Forall_app. split; assumption.
 Qed.
 
 (* ---------------------------------------------------------------- rotation *)
@@ -294,20 +315,19 @@ Section AEAD.
   Variable enc : bytes -> bytes -> bytes -> bytes -> bytes.
   Variable dec : bytes -> bytes -> bytes -> bytes -> option bytes.
 
-  (* facts of every deterministic AEAD with a 16-byte tag (true of AES-SIV) *)
-  Hypothesis dec_enc : forall k n a p, dec k n a (enc k n a p) = Some p.
-  Hypothesis dec_sound : forall k n a c p, dec k n a c = Some p -> c = enc k n a p.
-  Hypothesis enc_len : forall k n a p, lenZ (enc k n a p) = lenZ p + ENCODE_TAG_LEN.
-  Hypothesis dec_bytes : forall k n a c p, dec k n a c = Some p -> bytes_ok p.
-  (* idealisation: a ciphertext made under one key is invalid under every other key *)
-  Hypothesis key_sep : forall k k' n n' a a' p p', dec k' n' a' (enc k n a p) = Some p' -> k' = k.
+  Hypothesis dec_enc : aead_correct enc dec.
+  Hypothesis dec_sound : aead_sound enc dec.
+  Hypothesis enc_len : aead_tag16 enc.
+  Hypothesis dec_bytes : aead_bytes dec.
+  Hypothesis key_sep : aead_key_separation enc dec.
 
   Lemma encode_ok ks c nonce :
     KeysOk ks -> exists k, nth_error (keys ks) (Z.to_nat (primary ks)) = Some k /\
       encode_cookie enc ks c nonce =
         Ok (be_enc 4 (wrap 32 (primary ks + id_offset ks))
             ++ be_enc 2 (wrap 16 (lenZ (enc k nonce [] (plaintext c)))) ++ nonce ++ enc k nonce [] (plaintext c)).
-  Proof.
+  Proof using dec enc.
+    clear dec_enc dec_sound enc_len dec_bytes key_sep.
     intros [Hp _]. unfold encode_cookie.
     destruct (nth_error (keys ks) (Z.to_nat (primary ks))) as [k|] eqn:E.
     - exists k. split; reflexivity.
@@ -317,7 +337,8 @@ Section AEAD.
   Lemma encode_panic_iff ks c nonce :
     0 <= primary ks ->
     ((exists s, encode_cookie enc ks c nonce = Panic s) <-> lenZ (keys ks) <= primary ks).
-  Proof.
+  Proof using dec enc.
+    clear dec_enc dec_sound enc_len dec_bytes key_sep.
     intros H0. unfold encode_cookie.
     destruct (nth_error (keys ks) (Z.to_nat (primary ks))) as [k|] eqn:E.
     - split; [intros [s Hs]; discriminate|]. intros H.
@@ -327,7 +348,8 @@ Section AEAD.
   Qed.
 
   Lemma decode_total ks b : decode_cookie dec ks b = Err err_decrypt \/ exists c, decode_cookie dec ks b = Ok c.
-  Proof.
+  Proof using dec enc.
+    clear dec_enc dec_sound enc_len dec_bytes key_sep.
     unfold decode_cookie.
     destruct (lenZ b <? hdr_len); auto.
     destruct (nth_error (keys ks) _); auto.
@@ -345,7 +367,8 @@ Section AEAD.
       | None => Err err_decrypt
       | Some k' => match dec k' nonce [] ct with None => Err err_decrypt | Some p => parse_plaintext p end
       end.
-  Proof.
+  Proof using dec enc_len.
+    clear dec_enc dec_sound dec_bytes key_sep.
     intros Hwf Hn Hid ct b.
     assert (Hct : lenZ ct = 82 \/ lenZ ct = 146).
     { unfold ct. rewrite enc_len. change ENCODE_TAG_LEN with 16. destruct (plaintext_len c Hwf); lia. }
@@ -369,11 +392,12 @@ Section AEAD.
     nth_error (keys ks) (Z.to_nat (primary ks)) = Some k ->
     nth_error (keys ks') (Z.to_nat (wrap 32 (wrap 32 (primary ks + id_offset ks) - id_offset ks'))) = Some k ->
     decode_cookie dec ks' b = Ok c.
-  Proof.
+  Proof using dec dec_enc enc_len.
+    clear dec_sound dec_bytes key_sep.
     intros Hok Hwf Hn He Hk Hk'. destruct (encode_ok ks c nonce Hok) as (k0 & Hk0 & He0).
-    rewrite Hk in Hk0. injection Hk0 as <-. rewrite He in He0. injection He0 as ->.
+    assert (k0 = k) by congruence. subst k0. rewrite He in He0. apply Ok_inj in He0. subst b.
     rewrite decode_genuine_bytes by (try assumption; apply wrap_range).
-    rewrite Hk', dec_enc. apply parse_plaintext_ok. assumption.
+    rewrite Hk', dec_enc by (apply plaintext_bytes_ok; assumption). apply parse_plaintext_ok. assumption.
   Qed.
 
   Lemma decode_encode_miss ks ks' c nonce b :
@@ -381,9 +405,10 @@ Section AEAD.
     encode_cookie enc ks c nonce = Ok b ->
     nth_error (keys ks') (Z.to_nat (wrap 32 (wrap 32 (primary ks + id_offset ks) - id_offset ks'))) = None ->
     decode_cookie dec ks' b = Err err_decrypt.
-  Proof.
+  Proof using dec enc_len.
+    clear dec_enc dec_sound dec_bytes key_sep.
     intros Hok Hwf Hn He Hk'. destruct (encode_ok ks c nonce Hok) as (k0 & Hk0 & He0).
-    rewrite He in He0. injection He0 as ->.
+    rewrite He in He0. apply Ok_inj in He0. subst b.
     rewrite decode_genuine_bytes by (try assumption; apply wrap_range).
     rewrite Hk'. reflexivity.
   Qed.
@@ -391,7 +416,8 @@ Section AEAD.
   Theorem roundtrip ks c nonce :
     KeysOk ks -> wf_cookie c -> lenZ nonce = 16 ->
     exists b, encode_cookie enc ks c nonce = Ok b /\ decode_cookie dec ks b = Ok c.
-  Proof.
+  Proof using dec dec_enc enc_len.
+    clear dec_sound dec_bytes key_sep.
     intros Hok Hwf Hn. destruct (encode_ok ks c nonce Hok) as (k & Hk & He).
     eexists. split; [exact He|]. eapply decode_encode_hit; eauto.
     replace (wrap 32 (wrap 32 (primary ks + id_offset ks) - id_offset ks)) with (primary ks); [assumption|].
@@ -405,7 +431,8 @@ Section AEAD.
       decode_cookie dec (rotate_many h ks fs) b =
         if (match fs with [] => true | _ => (length (keys ks) + length fs - (h + 1) <=? Z.to_nat (primary ks))%nat end)
         then Ok c else Err err_decrypt.
-  Proof.
+  Proof using dec dec_enc enc_len.
+    clear dec_sound dec_bytes key_sep.
     intros Hok Hwf Hn Hb. destruct (roundtrip ks c nonce Hok Hwf Hn) as (b & He & Hd).
     exists b. split; [exact He|].
     destruct fs as [|f0 fs0] eqn:Efs; [exact Hd|]. rewrite <- Efs in *.
@@ -441,7 +468,8 @@ Section AEAD.
     let ks2 := rotate_many h ks1 fs2 in
     exists b, encode_cookie enc ks1 c nonce = Ok b /\
       decode_cookie dec ks2 b = if (length fs2 <=? h)%nat then Ok c else Err err_decrypt.
-  Proof.
+  Proof using dec dec_enc enc_len.
+    clear dec_sound dec_bytes key_sep.
     intros Hn Hwf Hnl Hb ks1 ks2.
     pose proof (lenZ_nonneg fs2) as Hf2. pose proof (lenZ_nonneg fs1) as Hf1.
     assert (Hn1 : newest ks1) by (apply rotate_many_newest; [assumption|lia]).
@@ -464,7 +492,8 @@ Section AEAD.
     encode_cookie enc ks' c nonce =
       Ok (be_enc 4 (wrap 32 (primary ks' + id_offset ks'))
           ++ be_enc 2 (wrap 16 (lenZ (enc f nonce [] (plaintext c)))) ++ nonce ++ enc f nonce [] (plaintext c)).
-  Proof.
+  Proof using dec enc.
+    clear dec_enc dec_sound enc_len dec_bytes key_sep.
     intros Hb ks'. subst ks'. rewrite rotate_many_snoc.
     set (ks1 := rotate_many h ks fs).
     pose proof (rotate_many_length_le h fs ks) as Hl. fold ks1 in Hl.
@@ -486,102 +515,154 @@ Section AEAD.
   (* whatever decodes is, within its declared length, the encoding under one of
      the current keys of exactly what it decodes to *)
   Theorem decode_genuine ks b c :
-    bytes_ok b -> decode_cookie dec ks b = Ok c ->
+    decode_cookie dec ks b = Ok c ->
     exists i k, nth_error (keys ks) i = Some k /\
       Z.of_nat i = wrap 32 (ck_id b - id_offset ks) /\
       hdr_len <= lenZ b /\ ck_len b <= lenZ (skipn (Z.to_nat hdr_len) b) /\
       dec k (ck_nonce b) [] (ck_ct b) = Some (plaintext c) /\
       ck_ct b = enc k (ck_nonce b) [] (plaintext c) /\ wf_cookie c.
-  Proof.
-    intros Hb. unfold decode_cookie.
+  Proof using dec dec_sound dec_bytes.
+    clear dec_enc enc_len key_sep.
+    unfold decode_cookie.
     destruct (lenZ b <? hdr_len) eqn:E0; [discriminate|]. apply Z.ltb_ge in E0.
     destruct (nth_error (keys ks) _) as [k|] eqn:Ek; [|discriminate].
     destruct (lenZ (skipn (Z.to_nat hdr_len) b) <? ck_len b) eqn:E1; [discriminate|]. apply Z.ltb_ge in E1.
     destruct (dec k (ck_nonce b) [] (ck_ct b)) as [p|] eqn:Ed; [|discriminate].
     intros Hp. destruct (parse_plaintext_inv p c (dec_bytes _ _ _ _ _ Ed) Hp) as [-> Hwf].
-    eexists _, k. split; [exact Ek|]. pose proof (wrap_range (ck_id b - id_offset ks)).
-    repeat split; try assumption; try lia. apply dec_sound. exact Ed.
-  Qed.
-
-  (* INT-CTXT for one presented byte string: if its ciphertext part is valid
-     under a server key then that (key, nonce, ciphertext) was produced by the
-     server (is in [issued]).  This is the idealisation "forgery probability
-     zero"; it is a premise about the presented bytes, not about [dec]. *)
-  Definition unforged (ks : keyset) (issued : list (bytes * bytes * bytes)) (b : bytes) : Prop :=
-    forall k p, In k (keys ks) -> dec k (ck_nonce b) [] (ck_ct b) = Some p ->
-      In (k, ck_nonce b, ck_ct b) issued.
-
-  Lemma ck_id_range b : bytes_ok b -> 0 <= ck_id b < 2 ^ 32.
-  Proof.
-    intros H. unfold ck_id. pose proof (be_dec_range _ (bytes_ok_firstn (Z.to_nat COOKIE_ID_LEN) b H)) as R.
-    assert (lenZ (firstn (Z.to_nat COOKIE_ID_LEN) b) <= 4).
-    { unfold lenZ. rewrite firstn_length. change (Z.to_nat COOKIE_ID_LEN) with 4%nat. lia. }
-    assert (256 ^ lenZ (firstn (Z.to_nat COOKIE_ID_LEN) b) <= 256 ^ 4).
-    { apply Z.pow_le_mono_r; [lia|assumption]. }
-    change (256 ^ 4) with (2 ^ 32) in *. lia.
+    exists (Z.to_nat (wrap 32 (ck_id b - id_offset ks))), k.
+    pose proof (wrap_range (ck_id b - id_offset ks)).
+    split; [exact Ek|]. split; [lia|]. split; [lia|]. split; [lia|]. split; [exact Ed|].
+    split; [apply dec_sound; exact Ed|exact Hwf].
   Qed.
 
   Theorem tamper ks c nonce b b' :
     KeysOk ks -> NoDup (keys ks) -> wf_cookie c -> lenZ nonce = 16 ->
     encode_cookie enc ks c nonce = Ok b ->
-    bytes_ok b' -> firstn (length b) b' <> b ->
+    bytes_ok (firstn 6 b') -> firstn (length b) b' <> b ->
     (forall k, nth_error (keys ks) (Z.to_nat (primary ks)) = Some k ->
-       unforged ks [(k, nonce, enc k nonce [] (plaintext c))] b') ->
+       unforged dec ks [(k, nonce, enc k nonce [] (plaintext c))] b') ->
     decode_cookie dec ks b' = Err err_decrypt.
-  Proof.
+  Proof using dec dec_sound dec_bytes enc_len.
+    clear dec_enc key_sep.
     intros Hok Hnd Hwf Hn He Hb' Hdiff Hunf.
     destruct (decode_total ks b') as [H|[c' Hd]]; [exact H|]. exfalso. apply Hdiff.
-    destruct (encode_ok ks c nonce Hok) as (kp & Hkp & He0). rewrite He in He0. injection He0 as ->.
+    destruct (encode_ok ks c nonce Hok) as (kp & Hkp & He0). rewrite He in He0. apply Ok_inj in He0. subst b.
     specialize (Hunf kp Hkp).
-    destruct (decode_genuine ks b' c' Hb' Hd) as (i & k & Hk & Hi & Hlen & Hctl & Hdec & Hct & Hwf').
+    destruct (decode_genuine ks b' c' Hd) as (i & k & Hk & Hi & Hlen & Hctl & Hdec & Hct & Hwf').
     specialize (Hunf k (plaintext c') (nth_error_In _ _ Hk) Hdec).
-    destruct Hunf as [Heq|[]]. injection Heq as -> Hnonce Hcteq.
+    destruct Hunf as [Heq|[]].
+    assert (Hk_eq : k = kp) by congruence.
+    assert (Hnonce : ck_nonce b' = nonce) by congruence.
+    assert (Hcteq : ck_ct b' = enc kp nonce [] (plaintext c)) by congruence.
+    clear Heq. subst k.
     (* same key, hence same index *)
     assert (Hip : i = Z.to_nat (primary ks)).
     { apply (proj1 (NoDup_nth_error (keys ks)) Hnd).
       - apply nth_error_Some. congruence.
       - congruence. }
     destruct Hok as (Hp & Ho & Hl).
-    assert (Hid : ck_id b' = wrap 32 (primary ks + id_offset ks)).
-    { pose proof (ck_id_range b' Hb'). subst i. unfold wrap in *. change (2 ^ 32) with 4294967296 in *. lia. }
     destruct (cookie_split b' Hlen) as (I & L & N & R & -> & HI & HL & HN).
     destruct (cookie_fields I L N R HI HL HN) as (Fi & Fl & Fn & Fr & Flen). cbv zeta in *.
-    set (CT := enc k nonce [] (plaintext c)) in *.
+    assert (HbIL : bytes_ok (I ++ L)).
+    { rewrite (app_assoc I L) in Hb'. rewrite firstn_app_len in Hb' by (rewrite app_length; lia). exact Hb'. }
+    apply Forall_app in HbIL. destruct HbIL as [HbI HbL].
+    assert (Hid : ck_id (I ++ L ++ N ++ R) = wrap 32 (primary ks + id_offset ks)).
+    { pose proof (be_dec_range I HbI) as RI. unfold lenZ in RI. rewrite HI in RI.
+      change (256 ^ Z.of_nat 4) with 4294967296 in RI. rewrite <- Fi in RI.
+      subst i. unfold wrap in *. change (2 ^ 32) with 4294967296 in *. lia. }
+    set (CT := enc kp nonce [] (plaintext c)) in *.
     assert (HctR : ck_ct (I ++ L ++ N ++ R) = firstn (Z.to_nat (be_dec L)) R).
     { unfold ck_ct. rewrite Fr, Fl. reflexivity. }
     rewrite Fr, Fl in Hctl.
     assert (HL' : be_dec L = lenZ CT).
     { rewrite <- Hcteq, HctR. unfold lenZ in *. rewrite firstn_length.
-      pose proof (be_dec_range L). lia. }
+      pose proof (be_dec_range L HbL) as [HL0 _]. lia. }
     assert (HCT : lenZ CT = 82 \/ lenZ CT = 146).
     { unfold CT. rewrite enc_len. change ENCODE_TAG_LEN with 16. destruct (plaintext_len c Hwf); lia. }
-    assert (HbL : bytes_ok L).
-    { apply Forall_app in Hb'. destruct Hb' as [_ Hb']. apply Forall_app in Hb'. apply Hb'. }
-    assert (HbI : bytes_ok I) by (apply Forall_app in Hb'; apply Hb').
     rewrite !app_length, !be_enc_length. unfold lenZ in Hn.
     replace (4 + (2 + (length nonce + length CT)))%nat with (length (I ++ L ++ N) + length CT)%nat
       by (rewrite !app_length; lia).
-    rewrite (app_assoc I L), (app_assoc (I ++ L) N), <- (app_assoc I L N).
+    replace (I ++ L ++ N ++ R) with ((I ++ L ++ N) ++ R) by (rewrite <- !app_assoc; reflexivity).
     rewrite firstn_app_2. rewrite <- !app_assoc. f_equal; [|f_equal; [|f_equal]].
-    - rewrite <- Hid, Fi. rewrite <- HI. apply be_enc_dec. assumption.
+    - rewrite <- Hid, Fi. rewrite <- HI. symmetry. apply be_enc_dec. assumption.
     - unfold wrap. change (2 ^ 16) with 65536. rewrite Z.mod_small by lia.
-      rewrite <- HL', <- HL. apply be_enc_dec. assumption.
+      rewrite <- HL', <- HL. symmetry. apply be_enc_dec. assumption.
     - rewrite <- Hnonce, Fn. reflexivity.
-    - rewrite <- Hcteq, HctR, HL'. unfold lenZ. rewrite Nat2Z.id. reflexivity.
+    - transitivity (ck_ct (I ++ L ++ N ++ R)); [|exact Hcteq].
+      rewrite HctR, HL'. unfold lenZ. rewrite Nat2Z.id. reflexivity.
   Qed.
 
   (* cookies made under a key that is not in the set do not decode *)
   Theorem foreign ks ksf c nonce b :
     KeysOk ksf -> wf_cookie c -> lenZ nonce = 16 ->
     encode_cookie enc ksf c nonce = Ok b ->
+    Forall bytes_ok (keys ks) -> Forall bytes_ok (keys ksf) ->
     (forall k, nth_error (keys ksf) (Z.to_nat (primary ksf)) = Some k -> ~ In k (keys ks)) ->
     decode_cookie dec ks b = Err err_decrypt.
-  Proof.
-    intros Hok Hwf Hn He Hnot.
-    destruct (encode_ok ksf c nonce Hok) as (kf & Hkf & He0). rewrite He in He0. injection He0 as ->.
+  Proof using dec enc_len key_sep.
+    clear dec_enc dec_sound dec_bytes.
+    intros Hok Hwf Hn He Hbk Hbkf Hnot.
+    destruct (encode_ok ksf c nonce Hok) as (kf & Hkf & He0). rewrite He in He0. apply Ok_inj in He0. subst b.
     rewrite decode_genuine_bytes by (try assumption; apply wrap_range).
     destruct (nth_error (keys ks) _) as [k'|] eqn:Ek; [|reflexivity].
     destruct (dec k' nonce [] (enc kf nonce [] (plaintext c))) as [p|] eqn:Ed; [|reflexivity].
-    exfalso. apply key_sep in Ed. subst k'. apply (Hnot kf Hkf). eapply nth_error_In. exact Ek.
+    exfalso. apply key_sep in Ed.
+    2: { rewrite Forall_forall in Hbkf. apply Hbkf. eapply nth_error_In. exact Hkf. }
+    2: { rewrite Forall_forall in Hbk. apply Hbk. eapply nth_error_In. exact Ek. }
+    subst k'. apply (Hnot kf Hkf). eapply nth_error_In. exact Ek.
   Qed.
 End AEAD.
+
+(* ---------------------------------------------------------------- the hypotheses are satisfiable *)
+
+Lemma bytes_eqb_eq a : forall b, bytes_eqb a b = true <-> a = b.
+Proof.
+  induction a as [|x a IH]; intros [|y b]; cbn; try (split; [discriminate|congruence]); [tauto|].
+  rewrite andb_true_iff, Z.eqb_eq, IH. split; [intros [-> ->]; reflexivity|intros [= -> ->]; auto].
+Qed.
+
+Lemma all_bytes_ok p : all_bytes p = true <-> bytes_ok p.
+Proof.
+  unfold all_bytes, bytes_ok, is_byte. rewrite forallb_forall, Forall_forall.
+  split; intros H x Hx; specialize (H x Hx); lia.
+Qed.
+
+Lemma app_inj_len {A} (a a' b b' : list A) : a ++ b = a' ++ b' -> length b = length b' -> a = a' /\ b = b'.
+Proof.
+  intros H Hl. assert (Hla : length a = length a').
+  { apply (f_equal (@length A)) in H. rewrite !app_length in H. lia. }
+  split.
+  - rewrite <- (firstn_app_len a b (length a) eq_refl), H. apply firstn_app_len. auto.
+  - rewrite <- (skipn_app_len a b (length a) eq_refl), H. apply skipn_app_len. auto.
+Qed.
+
+Lemma toy_dec_enc k n a p : bytes_ok p -> toy_dec k n a (toy_enc k n a p) = Some p.
+Proof.
+  intros Hp. unfold toy_dec. assert (Hl : length (toy_enc k n a p) = (length p + 16)%nat).
+  { unfold toy_enc. rewrite app_length. reflexivity. }
+  rewrite Hl. replace (length p + 16 - 16)%nat with (length p) by lia.
+  assert (Hf : firstn (length p) (toy_enc k n a p) = p) by (apply firstn_app_len; reflexivity).
+  rewrite Hf. replace (16 <=? length p + 16)%nat with true by (symmetry; apply Nat.leb_le; lia).
+  rewrite (proj2 (bytes_eqb_eq _ _) eq_refl), (proj2 (all_bytes_ok p) Hp). reflexivity.
+Qed.
+
+Lemma toy_dec_inv k n a c p : toy_dec k n a c = Some p -> c = toy_enc k n a p /\ bytes_ok p.
+Proof.
+  unfold toy_dec. destruct (_ && _ && _) eqn:E; [|discriminate]. intros [= <-].
+  apply andb_true_iff in E. destruct E as [E E3]. apply andb_true_iff in E. destruct E as [E1 E2].
+  split; [apply bytes_eqb_eq; exact E2|apply all_bytes_ok; exact E3].
+Qed.
+
+Theorem toy_aead :
+  aead_correct toy_enc toy_dec /\ aead_sound toy_enc toy_dec /\ aead_tag16 toy_enc /\
+  aead_bytes toy_dec /\ aead_key_separation toy_enc toy_dec.
+Proof.
+  split; [exact toy_dec_enc|]. split; [|split; [|split]].
+  - intros k n a c p H. apply toy_dec_inv in H. apply H.
+  - intros k n a p. unfold toy_enc. rewrite lenZ_app. reflexivity.
+  - intros k n a c p H. apply toy_dec_inv in H. apply H.
+  - intros k k' n n' a a' p p' Hk Hk' H. apply toy_dec_inv in H. destruct H as [H _].
+    unfold toy_enc in H. apply app_inj_len in H; [|reflexivity]. destruct H as [_ H].
+    injection H as H1 H2 _. rewrite <- (be_enc_dec k Hk), <- (be_enc_dec k' Hk').
+    unfold lenZ in H1. apply Nat2Z.inj in H1. rewrite H1, H2. reflexivity.
+Qed.
